@@ -80,6 +80,37 @@ def rle : List Rat → List (Rat × Nat)
 def showTable (t : List Rat) : String :=
   toString t.length ++ ":" ++ ";".intercalate ((rle t).map fun p => showRat p.1 ++ "*" ++ toString p.2)
 
+def lazyProp? (s : String) : Option Dome.LazyProp :=
+  match s with
+  | "tregenza_dome_vectors" => some .tDomeVec
+  | "tregenza_sphere_vectors" => some .tSphereVec
+  | "tregenza_dome_mesh" => some .tDomeMesh
+  | "tregenza_dome_mesh_high_res" => some .tDomeMeshHi
+  | "tregenza_sphere_mesh" => some .tSphereMesh
+  | "tregenza_solid_angles" => some .tSolid
+  | "reinhart_dome_vectors" => some .rDomeVec
+  | "reinhart_sphere_vectors" => some .rSphereVec
+  | "reinhart_dome_mesh" => some .rDomeMesh
+  | "reinhart_sphere_mesh" => some .rSphereMesh
+  | "reinhart_solid_angles" => some .rSolid
+  | _ => none
+
+def showCount (c : Dome.Content) : String :=
+  match c.count with
+  | .ok k => toString k
+  | .error e => showErr e
+
+/-- `<kind>:<n>:<in_place>:<count>`; `none` when the getter returns `None`. -/
+def showContent : Option Dome.Content → String
+  | none => "none"
+  | some c =>
+    (match c with
+     | .domeVec n ip => s!"dome_vectors:{n}:{showBool ip}"
+     | .domeMesh n ip => s!"dome_mesh:{n}:{showBool ip}"
+     | .sphereVec n => s!"sphere_vectors:{n}:0"
+     | .sphereMesh n => s!"sphere_mesh:{n}:0"
+     | .solid b => s!"solid_angles:{if b then 2 else 1}:0") ++ ":" ++ showCount c
+
 def floats? (l : List String) : Option (List Float) := l.mapM floatBits?
 
 def handle (toks : List String) : String :=
@@ -165,6 +196,10 @@ def handle (toks : List String) : String :=
           if rel.length = 0 then "err:zero" else
           "ok " ++ showFloats (Dome.offsetWeights twoPi (sinSeq (pi / Float.ofInt den) rows.length) rows k)
     | _, _, _ => "bad-op"
+  | "lazy_reads" :: seq =>
+    match seq.mapM lazyProp? with
+    | some ps => "ok " ++ joinSp ((Dome.lazyReadSeq Dome.LState.empty ps).map showContent)
+    | none => "bad-op"
   | "sa_reads" :: seq =>
     match seq.mapM bool? with
     | some bs => "ok " ++ joinSp ((Dome.readSeq {} bs).map showTable)
